@@ -354,6 +354,9 @@ func c07NoWait(c *vf.Ctx) {
 		if err != nil {
 			continue
 		}
+		// a provider no source knows: looked up once, it is remembered as absent (a cached answer like any other)
+		absent := pool[95]
+		_, _ = pc.Get(context.Background(), absent)
 		gate := make(chan struct{})
 		entered := make(chan struct{}, 4)
 		hold := func(context.Context) error {
@@ -410,6 +413,14 @@ func c07NoWait(c *vf.Ctx) {
 								c.Fail(sub, i, "cached-provider-reported-missing", fmt.Sprint(res, err), wit())
 								return
 							}
+						}
+						if k%50 == 7 && mode != "miss-fetch" {
+							// (the answer "absent" is cached too; with a miss-fetch held, the same provider would be the one being fetched)
+							if pi, err := pc.Get(context.Background(), absent); err != nil || pi != nil {
+								c.Fail(sub, i, "cached-absence-not-answered-from-the-cache", fmt.Sprint(pi, err), wit())
+								return
+							}
+							did.Add(1)
 						}
 						did.Add(1)
 					}
